@@ -64,6 +64,110 @@ def render(kind_sp, attr_style, end_style, dcolon, upper):
     return "\n".join(L) + "\n"
 
 
+# ---- second model program: type-bound procedures, array bounds of rank >= 2 in both attribute forms, interfaces, enumeration, common block, namelist
+# (array / length attribute on the declaration, the same as a separate statement)
+RICH_VARS = [
+    ("real", "grid", "dimension(2,3)", "dimension grid(2,3)"),
+    ("real", "buf", "allocatable, dimension(:,:)", "allocatable :: buf(:,:)"),
+    ("real", "p3", "pointer, dimension(:,:,:)", "pointer p3(:,:,:)"),
+    ("integer", "tg", "target, dimension(10,2)", "target :: tg(10,2)"),
+    ("integer", "vol", "volatile", "volatile vol"),
+]
+
+
+def render_rich(attr_style, upper, dcolon, idcase):
+    """idcase: the identifiers at their *use* sites (attribute statements, common, namelist, bindings, argument lists) are upper-cased"""
+    K = (lambda s: s.upper()) if upper else (lambda s: s)
+    U = (lambda s: s.upper()) if idcase else (lambda s: s)
+    dc = " :: " if dcolon else " "
+    L = [K("module") + " shapes", "  " + K("implicit none")]
+    for ts, nm, on_decl, stmt in RICH_VARS:
+        if attr_style == "decl":
+            L.append("  " + K(ts) + ", " + K(on_decl) + " :: " + nm)
+        else:
+            L.append("  " + K(ts) + dc + nm)
+            kw, rest = stmt.split(" ", 1)
+            L.append("  " + K(kw) + " " + rest.replace(nm, U(nm)))
+    L += ["  " + K("type") + dc + "shape_t", "    " + K("integer") + dc + "id", "  " + K("contains"),
+          "    " + K("procedure") + " :: area => " + U("shape_area"),
+          "    " + K("procedure") + (", " + K("public") if attr_style == "decl" else "") + " :: perim => shape_perim",
+          "    " + K("generic") + " :: measure => " + U("area") + ", perim",
+          "    " + K("final") + " :: " + U("shape_done"),
+          "  " + K("end type") + " shape_t",
+          "  " + K("interface") + " total", "    " + K("module procedure") + " " + U("total_i"), "  " + K("end interface") + " total",
+          "  " + K("abstract interface"), "    " + K("subroutine") + " cb(x)", "      " + K("real, intent(in)") + " :: x", "    " + K("end subroutine") + " cb",
+          "  " + K("end interface"),
+          "  " + K("enum, bind(c)"), "    " + K("enumerator") + " :: red = 1, green", "  " + K("end enum"),
+          K("contains"),
+          "  " + K("function") + " shape_area(self) " + K("result") + "(a)", "    " + K("class") + "(shape_t), " + K("intent(in)") + " :: self", "    " + K("real") + dc + "a",
+          "    a = 1.0", "  " + K("end function") + " shape_area",
+          "  " + K("function") + " shape_perim(self) " + K("result") + "(a)", "    " + K("class") + "(shape_t), " + K("intent(in)") + " :: self", "    " + K("real") + dc + "a",
+          "    a = 2.0", "  " + K("end function") + " shape_perim",
+          "  " + K("subroutine") + " shape_done(self)", "    " + K("type") + "(shape_t), " + K("intent(inout)") + " :: self", "  " + K("end subroutine") + " shape_done",
+          "  " + K("integer function") + " total_i(n)", "    " + K("integer, intent(in)") + " :: n", "    total_i = n", "  " + K("end function") + " total_i",
+          "  " + K("subroutine") + " work(" + U("q") + ", cs, " + U("ext") + ")"]
+    if attr_style == "decl":
+        L += ["    " + K("integer, intent(inout)") + " :: q", "    " + K("character(len=10), intent(in)") + " :: cs", "    " + K("real, external") + " :: ext",
+              "    " + K("real, external") + " :: other"]
+    else:
+        L += ["    " + K("integer") + dc + "q", "    " + K("intent(in out)") + " " + U("q"), "    " + K("character(len=10)") + dc + "cs", "    " + K("intent(in)") + dc + "cs",
+              "    " + K("real") + dc + "ext", "    " + K("external") + dc + U("ext"), "    " + K("real") + dc + "other", "    " + K("external") + " other"]
+    L += ["    " + K("character(len=10)") + dc + "c2, c3*20, c4(3)*5",
+          "    " + K("integer") + dc + "cx, cy",
+          "    " + K("common") + " /blk/ " + U("cx") + ", cy",
+          "    " + K("namelist") + " /nml/ " + U("cx") + ", cy",
+          "  " + K("end subroutine") + " work",
+          K("end module") + " shapes"]
+    return "\n".join(L) + "\n"
+
+
+def rich_variants():
+    return list(itertools.product(["decl", "stmt"], [False, True], [True, False], [False, True]))
+
+
+def search_rich():
+    base_v = ("decl", False, True, False)
+    base_text = render_rich(*base_v)
+    try:
+        base = tree(base_text)
+    except Exception as e:
+        return {"confirmed": True, "input": {"source": base_text}, "actual": f"{type(e).__name__}: {e}", "expected": "parses", "how": "base rendering of the second model program"}
+    m = base[0][0][3]
+    model = {"variables": ["grid", "buf", "p3", "tg", "vol"], "types": ["shape_t"], "interfaces": ["total"], "absinterfaces": ["cb"],
+             "functions": ["shape_area", "shape_perim", "total_i"], "subroutines": ["shape_done", "work"]}
+    got = {"variables": [v[1] for v in m[0]], "types": [t[1] for t in m[1]], "interfaces": [i[1] for i in m[2]], "absinterfaces": [i[5][0][1] if i[5] else i[1] for i in m[3]],
+           "functions": [p[1] for p in m[5]], "subroutines": [p[1] for p in m[4]]}
+    if got != model:
+        return {"confirmed": True, "input": {"source": base_text}, "actual": got, "expected": model, "how": "base rendering of the second model program vs its declared entities"}
+    t = m[1][0]
+    binds = sorted((b[0], b[3]) for b in t[6])
+    if binds != [("area", False), ("measure", True), ("perim", False)] or t[7] != ("shape_done",):
+        return {"confirmed": True, "input": {"source": base_text}, "actual": {"bindings (name, generic)": binds, "final": t[7]},
+                "expected": "area, perim specific; measure generic; final shape_done", "how": "base rendering of the second model program: type-bound procedures"}
+    dims = {v[1]: (v[8], v[6]) for v in m[0]}
+    want = {"grid": ("(2,3)", ()), "buf": ("(:,:)", ("allocatable",)), "p3": ("(:,:,:)", ("pointer",)), "tg": ("(10,2)", ("target",)), "vol": ("", ("volatile",))}
+    if dims != want:
+        return {"confirmed": True, "input": {"source": base_text}, "actual": dims, "expected": want, "how": "base rendering of the second model program: (dimension, attributes) per variable"}
+    work = [p for p in m[4] if p[1] == "work"][0]
+    loc = {v[1]: (v[4], v[8]) for v in work[7][0]}
+    wantloc = {"c2": ("10", ""), "c3": ("20", ""), "c4": ("5", "(3)"), "cx": (None, ""), "cy": (None, "")}
+    if loc != wantloc:
+        return {"confirmed": True, "input": {"source": base_text}, "actual": loc, "expected": wantloc, "how": "base rendering of the second model program: (length, dimension) of work's local variables "
+                "(a non-dummy EXTERNAL declaration is no variable)"}
+    for v in rich_variants():
+        text = render_rich(*v)
+        try:
+            t2 = tree(text)
+        except Exception as e:
+            return {"confirmed": True, "input": {"source": text, "variant": v}, "actual": f"{type(e).__name__}: {e}", "expected": "parses like the base spelling",
+                    "how": f"real parser on variant {v} of the second model program"}
+        d = canon.diff(base, t2)
+        if d:
+            return {"confirmed": True, "input": {"source": text, "base": base_text, "variant": v}, "actual": d, "expected": "same canonical entity tree as the base spelling",
+                    "how": f"real parser, second model program: base spelling vs variant (attribute style, upper-case keywords, '::', upper-case identifiers at use sites) = {v}"}
+    return None
+
+
 def variants():
     return list(itertools.product(["paren", "star", "kind"], ["decl", "stmt"], ["bare", "kw", "named", "joined"], [True, False], [False, True]))
 
@@ -96,8 +200,8 @@ def search():
         if d:
             return {"confirmed": True, "input": {"source": text, "base": base_text, "variant": v}, "actual": d, "expected": "same canonical entity tree as the base spelling",
                     "how": f"real parser: base spelling vs variant (kind spelling, attribute style, end style, '::', upper case) = {v}"}
-    return None
+    return search_rich()
 
 
 def count_cases():
-    return len(variants())
+    return len(variants()) + len(rich_variants())
